@@ -40,6 +40,21 @@ Proof.
   exact (sweep_sound le_row bear_row rep_class known fs (H fs Hfs) req opt Hr Ho).
 Qed.
 
+(* no ties for ANY algorithm object: every Algorithm subclass of the live package (enumerated by the translator, not
+   from a hand-written list) in every algorithm position of every function -- an algorithm outside the documented set may find no
+   rule (NotFound) or reach a rule that raises, but two rules never tie *)
+Lemma sweep_noties_ext : forallb (sweep_noties le_row bear_row rep_class known) specs_ext = true.
+Proof. vm_compute. reflexivity. Qed.
+
+Theorem no_ties_any_algorithm :
+  forall fs, In fs specs_ext -> forall req opt, admissible fs req opt ->
+    select fs req opt = Ambiguous -> is_known KAmbiguous fs req opt.
+Proof.
+  intros fs Hfs req opt (Hr & Ho) E.
+  pose proof sweep_noties_ext as H. rewrite forallb_forall in H.
+  exact (sweep_noties_sound le_row bear_row rep_class known fs (H fs Hfs) req opt Hr Ho E).
+Qed.
+
 (* the lattice that is swept is the complete product: membership in the enumerated list = admissibility *)
 Theorem lattice_complete : forall fs req opt, In (req, opt) (calls fs) <-> admissible fs req opt.
 Proof. intros. apply in_calls. Qed.
